@@ -294,10 +294,11 @@ func churn(s src, pre int, script string) vs.Scenario {
 }
 
 func build(tier string) ([]runner.Instance, time.Duration) {
-	bound, budget := 2, 70*time.Second
+	bound, budget := 2, 100*time.Second
+	churnBound := 2
 	maxPre, maxAdds := 2, 2
 	if tier == "thorough" {
-		bound, budget = 4, 14*time.Minute
+		bound, budget, churnBound = 4, 14*time.Minute, 5
 	}
 	var out []runner.Instance
 	for _, s := range sources() {
@@ -314,7 +315,7 @@ func build(tier string) ([]runner.Instance, time.Duration) {
 				}
 			}
 			for _, script := range []string{"rc", "rac", "rrac", "arc", "c", "rarc"} {
-				out = append(out, runner.Instance{Group: "churn/" + s.name, Name: fmt.Sprintf("churn/%s/pre=%d,%s", s.name, pre, script), Bound: bound + 1, Scenario: churn(s, pre, script)})
+				out = append(out, runner.Instance{Group: "churn/" + s.name, Name: fmt.Sprintf("churn/%s/pre=%d,%s", s.name, pre, script), Bound: churnBound, Scenario: churn(s, pre, script)})
 			}
 		}
 	}
